@@ -489,7 +489,7 @@ func (d *driver) flushData(s *planStep) {
 					}
 					select {
 					case <-done:
-					case <-time.After(3 * time.Second):
+					case <-time.After(time.Second):
 						blocked = true
 					}
 				}
